@@ -50,11 +50,11 @@ COMPONENTS = {
 }
 ASSUMPTIONS = [
     "state-vector universe sim/stubs/qmem_sv.py is the trusted quantum semantics",
-    "set_qubit_state tolerance: fidelity >= 1 - 1e-6 (angle decomposition tolerance 1e-4 * pi per rotation)",
+    "set_qubit_state tolerance: fidelity >= 1 - 1e-7 (angle decomposition tolerance 1e-4 * pi per rotation, i.e. infidelity <= 5e-8)",
     "other thresholds 1 - 1e-9",
 ]
 PROBES = ["toffoli", "t_inverse", "set_qubit_state", "parity_meas", "parity:ancilla-path", "parity:single-qubit-path",
-          "parity:trivial", "parity:negative", "parity_sequence", "parity:sequence-read-at-the-end", "virtual-ids-differ-from-physical", "parity:both-branches-possible", "entangled-input", "flush-inside"]
+          "parity:trivial", "parity:negative", "parity_sequence", "parity:sequence-read-at-the-end", "parity:ancilla-refused-then-retried", "virtual-ids-differ-from-physical", "parity:both-branches-possible", "entangled-input", "flush-inside"]
 
 PAULI = {"I": I2, "X": X, "Y": Y, "Z": Z}
 TOFFOLI = np.eye(8, dtype=complex)
@@ -93,7 +93,7 @@ def one_pass(ch: Choices, spec: Dict[str, Any], forced: List[int], sample: Dict[
     qm = SVQMem(uni, 0)
     node = ControllerNode("n0", 0, qm, lambda: 0, flavour="nv" if nv else "vanilla", with_stack=False)
     n = spec["n"]
-    budget = n + 2
+    budget = n + 2 if not spec.get("refused_first") else n + 1
     hwc = NVHardwareConfig(budget) if nv else GenericHardwareConfig(budget)
     conn = SimConnection("app", node, max_qubits=budget, hardware_config=hwc, compiler=NVSubroutineTranspiler if nv else None)
 
@@ -116,6 +116,7 @@ def one_pass(ch: Choices, spec: Dict[str, Any], forced: List[int], sample: Dict[
                 fprog += [("set", ("Q", 0), v), ("qalloc", ("Q", 0)), ("init", ("Q", 0))]
             node.run_raw_now(subroutine_bytes(fprog, 77, node.flavour))
         qs = [Qubit(conn) for _ in range(n)]
+        spare = Qubit(conn) if spec.get("refused_first") else None     # fills the unit module: no room for an ancilla
         conn.flush()
         drain("allocation")
         slots = [(0, node.unit_module(conn.app_id)[q.qubit_id]) for q in qs]
@@ -141,6 +142,26 @@ def one_pass(ch: Choices, spec: Dict[str, Any], forced: List[int], sample: Dict[
             if spec["flush_inside"]:
                 conn.flush()
                 drain("inside")
+            if spec.get("refused_first"):
+                # injected fault: the controller has no room for the ancilla, refuses the allocation and aborts the
+                # subroutine; the host frees a qubit and asks again.  The refused attempt must have changed nothing.
+                parity_meas(qs, spec["bases"])
+                conn.flush()
+                try:
+                    conn.drain_now()
+                    raise Violation("fault", "fault|allocation-beyond-the-unit-module-was-accepted", dict(sample))
+                except Violation:
+                    raise
+                except Exception:  # noqa: BLE001 -- the refusal
+                    pass
+                um0 = node.unit_module(conn.app_id)
+                st0 = uni.statevector([(0, um0[q.qubit_id]) for q in qs])
+                if st0 is None or fid(st0, spec["psi"]) < 1 - 1e-9:
+                    raise Violation("fault", "fault|refused-parity-measurement-changed-the-data-qubits",
+                                    {"fidelity": None if st0 is None else fid(st0, spec["psi"]), **sample})
+                spare.free()
+                conn.flush()
+                drain("free the spare")
             result = parity_meas(qs, spec["bases"])
         conn.flush()
         drain("call")
@@ -220,6 +241,11 @@ def run(ch: Choices, opts: Dict[str, Any]) -> Dict[str, Any]:
             bump(probes, "parity:negative")
         spec["bases"] = bases
         spec["flush_inside"] = ch.flag(1, 3, "flushinside")
+        nonid0 = [b for b in bases.lstrip("-") if b != "I"]
+        if not calm and len(nonid0) >= 2 and ch.flag(1, 4, "refused-first"):
+            spec["refused_first"] = True
+            bump(probes, "parity:ancilla-refused-then-retried")
+            bump(faults, "controller-refuses-the-ancilla-allocation")
         if spec["flush_inside"]:
             bump(probes, "flush-inside")
             bump(faults, "flush-between-preparation-and-circuit")
@@ -292,7 +318,7 @@ def run(ch: Choices, opts: Dict[str, Any]) -> Dict[str, Any]:
         else:
             th, ph = spec["theta"], spec["phi"]
             want = np.array([math.cos(th / 2), complex(math.cos(ph), math.sin(ph)) * math.sin(th / 2)], dtype=complex)
-            thr = 1 - 1e-6
+            thr = 1 - 1e-7      # (the decomposition leaves at most pi*1e-4 rad per angle: infidelity <= 5e-8)
         f = fid(got, want)
         if f < thr:
             raise Violation("state", f"{call}|wrong-state{'|nv' if nv else ''}", {"fidelity": f, "got": np.round(got, 4).tolist(),
